@@ -48,6 +48,7 @@ type Case struct {
 type outcome struct {
 	lat, lon, course string
 	history          bool // an earlier report of this process was re-read after this one was built
+	twice            bool // Message was called a second time on the same report
 }
 
 // unitsPerDegree: the line has four minute decimals, so one unit is 1/10000 minute.
@@ -171,6 +172,24 @@ func judge(c Case, o *outcome) (sig, msg string) {
 	body, err := m.Body()
 	if err != nil {
 		return "body-unreadable", fmt.Sprintf("Body() = %v", err)
+	}
+	// the same report is turned into a message again (a tracker that re-sends, a log line next to the message): it states
+	// the same position, and the values the caller handed in are still the caller's
+	if c.Date%4 == 0 {
+		m2 := p.Message(c.Call)
+		if m2 == nil {
+			return "nil-message", "Message returned nil when it was called a second time on the same report"
+		}
+		if b2, err := m2.Body(); err != nil || b2 != body {
+			return "second-message-differs", fmt.Sprintf("Message called twice on the same report gives different bodies (err=%v):\nfirst  %q\nsecond %q", err, body, b2)
+		}
+		if c.HasPos && (*p.Lat != c.Lat || *p.Lon != c.Lon) && !(math.IsNaN(c.Lat) || math.IsNaN(c.Lon)) {
+			return "report-modified", fmt.Sprintf("after Message the report's position is (%v, %v), it was set to (%v, %v)", *p.Lat, *p.Lon, c.Lat, c.Lon)
+		}
+		if c.HasSpeed && *p.Speed != c.Speed {
+			return "report-modified", fmt.Sprintf("after Message the report's speed is %v, it was set to %v", *p.Speed, c.Speed)
+		}
+		o.twice = true
 	}
 	// history: the report built before this one (kept by the process, every 8th report) must still state what it
 	// stated when it was built - a tracker builds many reports before it sends the first
@@ -327,6 +346,9 @@ func account(c Case, o outcome, boundary bool) {
 	harness.Eval()
 	harness.NonTrivial(c.hash())
 	harness.Label("origin:"+c.Origin, fmt.Sprintf("fields:%04b(comment,course,speed,position)", c.mask()))
+	if o.twice {
+		harness.Label("history:Message-called-twice-on-the-same-report")
+	}
 	if boundary {
 		harness.Label("boundary_adjacent")
 	}
